@@ -106,6 +106,7 @@ def run_pandas(ops, tabs, n_rows, indexes=None, owners=False):
     model = load.sym_pandas_model()
     try:
         frames = {t: sym_frame(cols, n_rows[t], index=(indexes or {}).get(t), owner=(t if owners else None)) for t, cols in tabs.items()}
+        pdshim.ORDER_SORT_TIES[0] = False
         with warnings.catch_warnings():
             warnings.simplefilter("ignore")
             res = model.eval(ops, data_map=frames)
@@ -113,7 +114,9 @@ def run_pandas(ops, tabs, n_rows, indexes=None, owners=False):
             return SideResult(unmodelled=f"result type {type(res)}")
         cols = list(res.columns)
         rows = [[res._cols[c][i] for c in cols] for i in range(res._n)]
-        return SideResult(cols, rows, ordered=False)
+        # a pipeline ending in order_rows defines the row sequence, except among rows tied on the order columns
+        ordered = getattr(ops, "node_name", "") == "OrderRowsNode" and not pdshim.ORDER_SORT_TIES[0]
+        return SideResult(cols, rows, ordered=ordered)
     except Unmodelled as u:
         return SideResult(unmodelled=str(u))
     except Exception as e:
